@@ -538,7 +538,10 @@ func (q *qc) coq(cw *c08World) string {
 		a, v := 0, "PNone"
 		if q.attr != "" {
 			a = c08Attrs[q.attr]
-			if q.val != "" {
+			if q.val != "" && q.hasVM() {
+				// Value and ValueMatches in one struct: a value must satisfy both
+				v = fmt.Sprintf("PExactIf %d %s", cw.val(q.val), qb(q.vmMatches(q.val)))
+			} else if q.val != "" {
 				v = fmt.Sprintf("PExact %d", cw.val(q.val))
 			} else if q.hasVM() {
 				var toks []string
